@@ -1,7 +1,7 @@
 #!/usr/bin/env python3
 """Generates /verif/MANIFEST.json from the table below (run after adding a property's rules)."""
 import json, subprocess
-BUILT = "C01 C02 C03 C04 C05 C06 C07 C08 C09 C10 C11 C12".split()
+BUILT = "C01 C02 C03 C04 C05 C06 C07 C08 C09 C10 C11 C12 C13 C14 C15".split()
 NA = {}  # property -> reason (genuinely not applicable)
 TECH = {
  "C01": "state-graph dominance (K1) + CFG path rules on gate routing/order (K2,K3) + exact caller sets (K4) over go/types+go/cfg",
@@ -15,6 +15,9 @@ TECH = {
  "C10": "wiring by def-use and call graph (K4,K11), state graphs of the recovery and plan machines (K1), join pairing (K3) — structural necessary conditions only",
  "C11": "literal/def-use checks of the start-up filter (K11), comparison shape of the staleness test (K5), path rules on agedOut persistence (K2,K6), who-may-call (K4)",
  "C12": "lock-scope pairing on CFG paths (K3), guard dominance in validators (K5,K2), enumeration of non-returning call sites (K4), nil-guard and positive-argument dominance (K10,K5)",
+ "C13": "schema/statement agreement over the constant SQL and entry structs (K8): INSERT/UPDATE/SELECT closure, per-column writer-source = reader-destination, storage classes; field coverage from go/types (K7); not-found path rule (K2)",
+ "C14": "transaction-scope pairing (K3,K11), error discipline at every call site of the create/delete scope (K6), delete traversal coverage from go/types and DELETE statement lint (K7,K8)",
+ "C15": "SQL predicate lint (K8), symbolic expansion of the query builder's CFG paths into templates (K2,K8), stream close/connection ownership pairing (K3), sibling-literal agreement (K7)",
  "C09": "terminal-status guard dominance on CFG paths (K2), fix* prologue guards (K10), exact caller sets (K4)",
 }
 def text(p):
